@@ -29,7 +29,7 @@ type FilterDictionary interface {
 func AddStandardFilters(fd FilterDictionary) { //nolint: gocyclo
 	// value filters
 	fd.AddFilter("default", func(value, defaultValue any) any {
-		if value == nil || value == false || values.IsEmpty(value) {
+		if values.IsFalsy(value) || values.IsEmpty(value) {
 			value = defaultValue
 		}
 		return value
